@@ -156,6 +156,21 @@ def iallSchedules (F : Facts) (lists : List (List Nat)) (iprogs : List (List IOp
         if nexts.isEmpty then [done]
         else nexts.flatMap fun t => iallSchedules F lists iprogs fuel (done ++ [t])
 
+/-! ### appending operations to programs (what justifies `Follows`)
+
+  An adaptive thread decides its next operation when the previous one is done;
+  the static program of the step model has it from the start. `ExtBy`: the
+  same state, with `ext t` appended to the program of thread `t`. -/
+
+/-- `s2` is `s` with `ext t` appended to the program of every thread `t` -/
+def ExtBy (ext : Nat → List Op) (s s2 : State) : Prop :=
+  s2.cells = s.cells ∧ s2.hist = s.hist ∧ s2.trace = s.trace ∧ s2.spans = s.spans ∧
+  ∀ t, s2.threads t = { s.threads t with prog := (s.threads t).prog ++ ext t }
+
+/-- the programs with `more t` appended to thread `t`'s -/
+def extendProgs (progs : List (List Op)) (more : Nat → List Op) : List (List Op) :=
+  (List.range progs.length).map fun t => progs.getD t [] ++ more t
+
 def IOp.maxSteps : IOp → Nat
   | .base op => op.maxSteps
   | .iterNext => 2
